@@ -158,9 +158,15 @@ func (e *Enc) instr(fr *Frame, in ssa.Instruction) {
 		e.nextInstr(fr, x)
 	case *ssa.Select:
 		e.note("select statement in " + shortFnName(fr.fn) + ": outcome unconstrained (A-seq)")
+		for _, sc := range x.States {
+			if sc.Dir == types.SendOnly {
+				e.siteSend(fr, x, sc.Chan, sc.Send)
+			}
+		}
 		e.setVal(fr, x, e.fresh(x.Type(), "select"))
 	case *ssa.Send:
 		e.note("channel send in " + shortFnName(fr.fn) + ": no effect modelled (A-seq)")
+		e.siteSend(fr, x, x.Chan, x.X)
 	case *ssa.SliceToArrayPointer:
 		e.setVal(fr, x, e.fresh(x.Type(), "s2ap"))
 	default:
